@@ -64,7 +64,7 @@ CLAIMED = {
                      "order independence as a corollary; termination within fuel_bound. Tied to digraph/sync_digraph with the observed iteration order as model input "
                      "(identical component lists), all digraphs on <=3 (thorough: 4) nodes in several containers, random up to 30 nodes.",
                 tech="Coq proof of Kosaraju's algorithm over the DFS-run relation (leader invariant) + differential correspondence given the observed container order", ref="DESIGN.md §5 C11"),
-    "C12": dict(text="Theorems (coq/props/C12.v): decompose;rebuild returns a graph with the same keys and node values and, per node, the same outgoing (target key, value) list "
+    "C12": dict(text="Known finding (KNOWN_FINDINGS.txt): a container that is not closed under adjacency does not round-trip; the theorems carry the closure hypothesis. Theorems (coq/props/C12.v): decompose;rebuild returns a graph with the same keys and node values and, per node, the same outgoing (target key, value) list "
                      "in the same order (directed) / the same multiset of incident half-edges (undirected), for every container order; result satisfies the invariants. "
                      "The JSON/CBOR codecs themselves are outside the model; the correspondence runs real serde_json and serde_cbor round trips.",
                 tech="Coq proof: list-level refinement of decompose/rebuild + differential correspondence on real JSON and CBOR round trips", ref="DESIGN.md §5 C12"),
